@@ -18,6 +18,8 @@ const (
 	pageSize = 4096
 	lineSize = 64
 	maxBuf   = 5 * pageSize
+	// maxScratch bounds a buffer that only kernels write (to dirty many cache lines)
+	maxScratch = 256 * pageSize
 )
 
 // Buf is one device buffer of a case.
@@ -44,6 +46,7 @@ type Step struct {
 	Seed  uint32 `json:"seed,omitempty"`  // h2d: data seed; kernel: the constant K
 	Wait  bool   `json:"wait,omitempty"`  // kernel: s_waitcnt vmcnt(0) before s_endpgm
 	WG    int    `json:"wg,omitempty"`    // kernel: work-group size
+	Shift int    `json:"shift,omitempty"` // kernel: work-item gid stores to dword gid<<shift (4 = one store per 64-byte line)
 }
 
 // Case fully determines one execution.
@@ -237,11 +240,11 @@ func (c Case) validate() {
 			bad("queue device %d", q)
 		}
 	}
-	if len(c.Bufs) < 1 || len(c.Bufs) > 4 {
+	if len(c.Bufs) < 1 || len(c.Bufs) > 5 {
 		bad("bufs")
 	}
 	for _, b := range c.Bufs {
-		if b.Size < 1 || b.Size > maxBuf || b.Dev < -1 || b.Dev > n || (b.Dev == 0 && len(c.Unified) == 0) {
+		if b.Size < 1 || b.Size > maxScratch || b.Dev < -1 || b.Dev > n || (b.Dev == 0 && len(c.Unified) == 0) {
 			bad("buffer %+v", b)
 		}
 		for _, g := range b.Dist {
@@ -265,7 +268,7 @@ func (c Case) validate() {
 				bad("step %d %+v", i, s)
 			}
 		case "kernel":
-			if s.Off%4 != 0 || s.Off+4*s.Count > size || (s.WG != 64 && s.WG != 128 && s.WG != 256) {
+			if s.Off%4 != 0 || s.Shift < 0 || s.Shift > 4 || s.Off+4*((s.Count-1)<<s.Shift)+4 > size || (s.WG != 64 && s.WG != 128 && s.WG != 256) {
 				bad("step %d %+v", i, s)
 			}
 		default:
@@ -443,12 +446,12 @@ func (r *runner) classify(kind string, b *bufState, spec Buf, off, n int) (nontr
 // on any queue assume it is there; queues run concurrently, so every queue
 // launches its own code object (as an application with one module per
 // stream would).
-func (r *runner) codeObject(q, wg int, wait bool) *insts.KernelCodeObject {
-	k := fmt.Sprintf("%d/%d/%v", q, wg, wait)
+func (r *runner) codeObject(q, wg int, wait bool, shift int) *insts.KernelCodeObject {
+	k := fmt.Sprintf("%d/%d/%v/%d", q, wg, wait, shift)
 	if co, ok := r.cos[k]; ok {
 		return co
 	}
-	co := buildStoreKernel(wg, wait)
+	co := buildStoreKernel(wg, wait, shift)
 	r.cos[k] = co
 	return co
 }
@@ -542,12 +545,18 @@ func (r *runner) history() bool {
 			d.SelectGPU(r.ctx, dev)
 			grid := uint32((s.Count + s.WG - 1) / s.WG * s.WG)
 			args := &storeArgs{Out: st.ptr + driver.Ptr(s.Off), N: uint32(s.Count), K: s.Seed}
-			d.EnqueueLaunchKernel(q, r.codeObject(s.Q, s.WG, s.Wait), [3]uint32{grid, 1, 1}, [3]uint16{uint16(s.WG), 1, 1}, args)
+			d.EnqueueLaunchKernel(q, r.codeObject(s.Q, s.WG, s.Wait, s.Shift), [3]uint32{grid, 1, 1}, [3]uint16{uint16(s.WG), 1, 1}, args)
 			r.labels.add("op:kernel")
-			r.classify("kernel", st, spec, s.Off, 4*s.Count)
+			r.classify("kernel", st, spec, s.Off, 4*((s.Count-1)<<s.Shift)+4)
+			if s.Shift > 0 {
+				r.labels.add("kernel:strided")
+			}
+			if s.Count<<s.Shift >= 16*1024 {
+				r.labels.add("kernel:dirties-64-pages-or-more")
+			}
 			st.snapshot()
 			for g := 0; g < s.Count; g++ {
-				p := s.Off + 4*g
+				p := s.Off + 4*(g<<s.Shift)
 				binary.LittleEndian.PutUint32(st.model[p:], storeValue(uint32(g), s.Seed))
 				for k := 0; k < 4; k++ {
 					if st.writer[p+k] == 1 {
@@ -606,9 +615,6 @@ func (r *runner) run(step int) bool {
 func (r *runner) hangDetail() {
 	if d := r.obs.hangDetail(); d != "" {
 		r.res.Violation += " (" + d + ")"
-		if r.obs.flushOutlivedCopy() && stats.KnownActive(knownFlushHang) {
-			r.res.KnownID = knownFlushHang
-		}
 	}
 }
 
@@ -639,10 +645,14 @@ func (r *runner) checkRead(rd pendingRead) bool {
 	if len(got) != len(rd.expect) {
 		panic("harness: host value changed its size")
 	}
+	// decode the expected bytes the way the driver decodes into the host value
+	// (encoding/binary sets struct float fields through float64, which quiets a
+	// signalling-NaN bit pattern: a property of the host language, not of the copy)
+	expect := hostBytes(hostValue(rd.typ, rd.expect, true))
 	st := r.bufs[rd.buf]
 	first, nbad, allStale := -1, 0, true
 	for i := range got {
-		if got[i] != rd.expect[i] {
+		if got[i] != expect[i] {
 			if first < 0 {
 				first = i
 			}
@@ -662,7 +672,7 @@ func (r *runner) checkRead(rd pendingRead) bool {
 	p := rd.off + first
 	origin := [...]string{"never written", "last written by a copy", "last written by a kernel"}[st.writer[p]]
 	r.res.Violation = fmt.Sprintf("%s on %s: buffer %d (%d bytes) range [%d,%d) as %s: %d byte(s) differ from the model, first at buffer offset %d (page %d, +%d): device delivered 0x%02x, model holds 0x%02x (%s; DRAM view 0x%02x)",
-		what, platName(r.c.Plat), rd.buf, len(st.model), rd.off, rd.off+len(got), rd.typ, nbad, p, p/pageSize, p%pageSize, got[first], rd.expect[first], origin, st.dram[p])
+		what, platName(r.c.Plat), rd.buf, len(st.model), rd.off, rd.off+len(got), rd.typ, nbad, p, p/pageSize, p%pageSize, got[first], expect[first], origin, st.dram[p])
 	if allStale && r.c.Plat.Timing && r.c.Plat.MagicCopy {
 		// every differing byte lies in a cache line a kernel stored into and holds a
 		// value that byte had earlier: the direct-storage path bypassed the caches
@@ -695,7 +705,4 @@ func (r *runner) finish() {
 }
 
 // Known findings (see findings.json).
-const (
-	knownMagicStale = "C11-1"
-	knownFlushHang  = "C11-2"
-)
+const knownMagicStale = "C11-1"
